@@ -154,7 +154,8 @@ CLAIMS['C04'] = {
              'huge-entry counter equals the number of free frames of its bitfield again (and is never above it in between).'
              ' Theorems tree_stats_total / fast_total_exact: the program tree_stats() never panics, reads only, and its free total plus the frames hidden by '
              'Offline equals the exact total that stats() reports - fast = exact - offline as program outputs, in every invariant state (partition argument over '
-             'the slot ranges).' + PART + 'validate(), stats_at(order 0) / is_free and the end-of-interleaving statement for the tree counters are carried by '
+             'the slot ranges). Theorem validate_passes: all assertions of validate() hold (it runs to the end without panic, reading only) in every invariant state '
+             'without offline trees.' + PART + 'stats_at(order 0) / is_free and the end-of-interleaving statement for the tree counters are carried by '
              'the accounting oracle of the sequential and concurrent correspondence.'),
     'note': TB + ' Upper-level theorems hold for configurations satisfying CfgOk (class ids < 8, ordered policy, tree size < 2^19: every configuration of the repository; derived from elementary checks by CfgOk.of_checks); they depend on the C23 theorem (bv_decide axioms) through the lower search.',
     'technique': 'Lean 4 theorems from the lower and upper invariants + accounting oracle in the sequential differential and at quiescent ends of co-simulated interleavings',
@@ -198,7 +199,7 @@ CLAIMS['C09'] = {
              'local.rs and llfree.rs on these paths (asserts, unwrap/expect, slice indexing, checked arithmetic, bit-field setter bounds) is an '
              'explicit panic outcome of the model and is unreachable; new_then_history_never_panics includes the free-all / allocate-all construction for '
              'every frame count incl. 0.' ' tree_stats_never_panics: the statistics program never panics and reads only; Init::Recover from every weak-invariant state: C05 '
-             '(recover_then_history).' + PART + 'validate / stats_at(order 0) / is_free are carried by the correspondence '
+             '(recover_then_history); validate_never_panics: all assertions of validate() hold in every invariant state without offline trees.' + PART + 'stats_at(order 0) / is_free are carried by the correspondence '
              '(every call under catch_unwind in an overflow-checked build).'),
     'note': TB + ' Upper-level theorems hold for configurations satisfying CfgOk (class ids < 8, ordered policy, tree size < 2^19: every configuration of the repository; derived from elementary checks by CfgOk.of_checks); they depend on the C23 theorem (bv_decide axioms) through the lower search.',
     'technique': 'Lean 4 total-correctness proof over all call histories (no-panic = Outcome.ok in the sequential semantics) + sequential differential with panic capture',
